@@ -118,6 +118,7 @@ pub async fn run(source: Source, drain: bool) -> RunResult {
         prefill_reserve: profile.prefill.0,
         prefill_max: profile.prefill.1,
         journal_dir: tmp_dir(),
+        real_launcher: None,
     });
     let mut monitors = Monitors::new();
     let mut actions: Vec<Action> = Vec::new();
